@@ -440,6 +440,12 @@ func checkC09(c *core.Ctx) {
 		c.SetExtra("small_scope_documents_tried", len(all))
 		run(ss, smallSDL, all)
 	}
+	// small scope, values: the valid ones among every literal at every kind of input position (c08small.go)
+	if l, vs, crash := loadReal([]*ast.Source{{Name: "values.graphql", Input: valueSDL}}); crash == "" && l.OK {
+		all := smallValueDocs(c.Thorough())
+		c.SetExtra("small_scope_value_documents_tried", len(all))
+		run(vs, valueSDL, all)
+	}
 }
 
 func min(a, b int) int {
